@@ -210,6 +210,9 @@ def check(chk):
     live_only = bool(list(flu.at(up[0]))) and all(fa.knows('host.is_up is False') is False for fa, _c in flu.at(up[0]))
     chk.judge(live_only, 'C42.live', up[0].ast, 'profile_manager.on_up(host) after a location change only when the host is not marked down',
               'a datacenter / rack change reported for a node that is down calls on_up unconditionally: every policy files the down host as live again and plans contain it until the next down event')
+    # "newly seen hosts are announced once": the refresh hands a new host to Cluster.add_host -> on_add, whose completion logic decides how often listeners hear of it
+    chk.rule('C42.announce', 'Cluster.on_add finalises a new host exactly once (callbacks attached after the set of pool futures is complete; direct completion guarded by a flag)')
+    chk.borrow('C25', {'C25.register': 'C42.announce'}, 'a host found by a node-list refresh is announced to the listeners twice')
     # atomic
     meta = chk.repo.mod(META)
     ar = meta.func('Metadata.add_or_return_host')
